@@ -10,8 +10,8 @@ NRAND = {'quick': 100, 'thorough': 1000}
 def units(tier): return [Unit('c05k', shim='c05k.cpp', ctors=False)]
 def instances(tier):
     q = tier == 'quick'
-    out = [Inst('c05k', 'h_c05_sum_range', params=(n,), unwind=n + 3, timeout=(120 if q else 900), mem_gb=6) for n in range(0, 17 if q else 33)]
-    out += [Inst('c05k', 'h_c05_crc32', params=(n,), unwind=12, unwindset={'vp_buf.0': n + 2}, timeout=(120 if q else 900), mem_gb=6) for n in range(0, 5 if q else 9)]
-    out += [Inst('c05k', 'h_c05_pseudo_v4', unwind=16, timeout=300, mem_gb=6)]
+    out = [Inst('c05k', 'h_c05_sum_range', params=(n,), unwind=n + 3, timeout=(120 if q else 900), mem_gb=6, flags=['--sat-solver', 'cadical']) for n in range(0, 17 if q else 33)]
+    out += [Inst('c05k', 'h_c05_crc32', params=(n,), unwind=12, unwindset={'vp_buf.0': n + 2}, timeout=(120 if q else 900), mem_gb=6, flags=['--sat-solver', 'cadical']) for n in range(0, 5 if q else 9)]
+    out += [Inst('c05k', 'h_c05_pseudo_v4', unwind=16, timeout=300, mem_gb=6, flags=['--sat-solver', 'cadical'])]
     if not q: out += [Inst('c05k', 'h_c05_pseudo_v6', unwind=40, timeout=1800, mem_gb=8, flags=['--external-sat-solver', 'kissat'])]
     return out
